@@ -38,6 +38,21 @@ def run(chk, replay=None):
         if r != "(ok %s)" % gen.ty_sx(t):
             chk.violation({"class": "type-roundtrip", "what": "%s printed %s parsed back %s" % (gen.ty_sx(t)[:80], x[:60], r[:80])},
                           {"cmd": "value", "line": "(tparse %s)" % x, "implementation": r, "expected": "(ok %s)" % gen.ty_sx(t), "broken": "a printed type does not parse back to the same type"})
+    def parenthesise(r, text):
+        """the same constant with redundant parentheses: around the whole text and around some integer / boolean atoms"""
+        out = []
+        i = 0
+        for m in re.finditer(r"(?<![A-Za-z0-9_!\[])(0x[0-9a-fA-F]+|0b[01]+|\d+|true|false|None)(?![A-Za-z0-9_>;])", text):
+            # not inside a type annotation (after ';' in [T; n] or ', n>' in List<T, n>) — those are not expressions
+            pre = text[:m.start()].rstrip()
+            if pre.endswith(";") or re.search(r"<[^()]*,$", pre):
+                continue
+            if r.random() < 0.4:
+                out.append(text[i:m.start()] + "(" + m.group(0) + ")")
+                i = m.end()
+        t = "".join(out) + text[i:]
+        return "(%s)" % t if r.random() < 0.5 else t
+
     # ---- values: byte arrays of every length 0..64, nested byte arrays, sub-byte ints, u128/u256, empties, singletons + random
     u8 = ("U", 3)
     values = []
@@ -73,6 +88,19 @@ def run(chk, replay=None):
         if mr != r and not (mr.startswith("(err") and r.startswith("(err")):
             chk.violation({"class": "value-parse-model", "what": "%s impl=%s model=%s" % (x[:80], r[:80], mr[:80])},
                           {"cmd": "value", "line": pln, "implementation": r, "model": mr, "broken": "correspondence: Value::parse_from_str vs Text/ValParse.v on printed text (C15_value_roundtrip)"})
+    # ---- redundant parentheses inside a constant never change the value that is read (C17: parenthesisation is layout)
+    pv = [(v, parse_sx(x)) for v, x in zip(values, a) if x.startswith('"')][: (600 if quick else 8000)]
+    pr = chk.sub_rng("paren")
+    ptexts = [parenthesise(pr, txt) for _, txt in pv]
+    pl2 = ["(vparse %s %s)" % (gen.ty_sx(gen.type_of(v)), quote(t)) for (v, _), t in zip(pv, ptexts)]
+    for (v, txt), t, ln, r in zip(pv, ptexts, pl2, impl("value", pl2)):
+        if t == txt:
+            continue
+        chk.case(ln, sample={"value": txt[:80], "parenthesised": t[:100], "outcome": r[:60]})
+        chk.count("value.parenthesised." + ("same" if r == "(ok %s)" % gen.val_sx(v) else "different"))
+        if r != "(ok %s)" % gen.val_sx(v):
+            chk.violation({"class": "value-roundtrip", "what": "%s written as %s reads %s" % (txt[:60], t[:80], r[:80])},
+                          {"cmd": "value", "line": ln, "implementation": r, "expected": "(ok %s)" % gen.val_sx(v), "broken": "a constant with redundant parentheses is rejected or read as a different value"})
     # ---- maps: modules and JSON, 0..6 names
     maps = []
     for _ in range(150 if quick else 3000):
